@@ -200,8 +200,13 @@ def specBuild (eqv : Eqv) (z : SZone) (rs : List Rec) : SZone := rs.foldl (specA
 /-- the nodes of the zone: the apex and every name between the apex and an owner -/
 def IsNode (z : SZone) (n : Name) : Prop := n = z.apex ∨ (n ≠ z.apex ∧ z.apex <:+ n ∧ ∃ r ∈ z.recs, n <:+ r.owner)
 
+/-- remove repeated names (keeps the last occurrence of each) -/
+def dedup : List Name → List Name
+  | [] => []
+  | a :: l => if a ∈ l then dedup l else a :: dedup l
+
 def specNodes (z : SZone) : List Name :=
-  (z.apex :: z.recs.flatMap (fun r => pathBelow z.apex r.owner)).eraseDups
+  dedup (z.apex :: z.recs.flatMap (fun r => pathBelow z.apex r.owner))
 
 def specIterByNode (z : SZone) : List (Name × List Rrset) := (specNodes z).map (fun n => (n, rrsetsAt z n))
 
@@ -264,6 +269,34 @@ def specIsError : Issue → Bool
   | .MissingMxAddress _ | .NsAtWildcard _ => false
   | _ => true
 
+/-! executable form of the reference checker -/
+
+def apexIssues (z : SZone) : List Issue :=
+  let apexSoa := z.recs.filter (fun r => r.owner == z.apex && r.rtype == SOA)
+  (if apexSoa.isEmpty then [.MissingApexSoa] else []) ++
+  (if 2 ≤ apexSoa.length then [.TooManyApexSoas] else []) ++
+  (if !owns z z.apex NS then [.MissingApexNs] else [])
+
+/-- the issues caused by one NS record `r` -/
+def nsRecIssues (nameOf : NameOf) (z : SZone) (r : Rec) : List Issue :=
+  match nameOf r.rdata with
+  | some g =>
+    (if noAddress z g then [Issue.MissingNsAddress g] else []) ++
+    (if r.owner != z.apex && needsGlue z r.owner g && !glueOk z g then [Issue.MissingGlue g] else [])
+  | none => []
+
+/-- the issues caused by one MX record -/
+def mxRecIssues (nameOf : NameOf) (z : SZone) (r : Rec) : List Issue :=
+  match mxName nameOf r.rdata with
+  | some g => if noAddress z g then [Issue.MissingMxAddress g] else []
+  | none => []
+
+/-- the issues attached to an owner name -/
+def ownerIssues (z : SZone) (o : Name) : List Issue :=
+  (if 2 ≤ (z.recs.filter (fun r => r.owner == o && r.rtype == CNAME)).length then [Issue.DuplicateCname o] else []) ++
+  (if owns z o CNAME && z.recs.any (fun r => r.owner == o && r.rtype != CNAME) then [Issue.OtherRecordsAtCname o] else []) ++
+  (if owns z o NS && isWildcard o then [Issue.NsAtWildcard o] else [])
+
 /-- executable form: `none` = invalid RDATA, else the list of issues (a set: order and
     multiplicity carry no meaning) -/
 def specValidate (nameOf : NameOf) (z : SZone) : Option (List Issue) :=
@@ -272,25 +305,9 @@ def specValidate (nameOf : NameOf) (z : SZone) : Option (List Issue) :=
   let mxRecs := z.recs.filter (fun r => r.rtype == MX)
   if ac && (nsRecs.any (fun r => (nameOf r.rdata).isNone) || mxRecs.any (fun r => (mxName nameOf r.rdata).isNone)) then none
   else
-    let apexSoa := z.recs.filter (fun r => r.owner == z.apex && r.rtype == SOA)
-    let owners := (z.recs.map (·.owner)).eraseDups
-    some (
-      (if apexSoa.isEmpty then [.MissingApexSoa] else []) ++
-      (if 2 ≤ apexSoa.length then [.TooManyApexSoas] else []) ++
-      (if !owns z z.apex NS then [.MissingApexNs] else []) ++
-      (if ac then nsRecs.flatMap (fun r =>
-          match nameOf r.rdata with
-          | some g =>
-            (if noAddress z g then [Issue.MissingNsAddress g] else []) ++
-            (if r.owner != z.apex && needsGlue z r.owner g && !glueOk z g then [Issue.MissingGlue g] else [])
-          | none => []) else []) ++
-      (if ac then mxRecs.flatMap (fun r =>
-          match mxName nameOf r.rdata with
-          | some g => if noAddress z g then [Issue.MissingMxAddress g] else []
-          | none => []) else []) ++
-      owners.flatMap (fun o =>
-        (if 2 ≤ (z.recs.filter (fun r => r.owner == o && r.rtype == CNAME)).length then [Issue.DuplicateCname o] else []) ++
-        (if owns z o CNAME && z.recs.any (fun r => r.owner == o && r.rtype != CNAME) then [Issue.OtherRecordsAtCname o] else []) ++
-        (if owns z o NS && isWildcard o then [Issue.NsAtWildcard o] else [])))
+    some (apexIssues z ++
+      (if ac then nsRecs.flatMap (nsRecIssues nameOf z) else []) ++
+      (if ac then mxRecs.flatMap (mxRecIssues nameOf z) else []) ++
+      (dedup (z.recs.map (·.owner))).flatMap (ownerIssues z))
 
 end QV.Spec.Zone
